@@ -217,6 +217,15 @@ def run(tier, seed):
     broke = ((broke or '') + ' correspondence MeasurementConverter vs model on %r;' % (mobjs[i],))
 
   # ---------------- Trials / suggestions / metadata deltas / requests (round-trip monitors on the real converters)
+  from google.protobuf import any_pb2, duration_pb2
+
+  def md_value():
+    """A metadata value: a string, or a protobuf payload in the form it has after one trip over the wire (an Any)."""
+    if r.random() < 0.35:
+      a = any_pb2.Any()
+      a.Pack(duration_pb2.Duration(seconds=r.randrange(5), nanos=r.choice([0, 500])))
+      return a
+    return r.choice(['v', ''])
   T = pc.TrialConverter
   for i in range(N // 2):
     params = {}
@@ -229,7 +238,7 @@ def run(tier, seed):
       t.measurements.append(vz.Measurement({'m': 1.0}, elapsed_secs=r.choice([0.0, 2.5]), steps=1))
     if r.random() < 0.6:
       ns = r.choice([(), ('a',), ('a', 'b:c'), ('',)])
-      t.metadata.abs_ns(vz.Namespace(ns))[r.choice(['k', ''])] = r.choice(['v', ''])
+      t.metadata.abs_ns(vz.Namespace(ns))[r.choice(['k', ''])] = md_value()
     if st == 'requested':
       t.is_requested = True
     elif st == 'succeeded':
@@ -258,13 +267,14 @@ def run(tier, seed):
     for _ in range(r.randrange(0, 4)):
       ns = vz.Namespace(r.choice([(), ('a',), ('a', 'b'), ('x:y',)]))
       if r.random() < 0.5:
-        d.on_study.abs_ns(ns)[r.choice(['k', 'k2'])] = r.choice(['v', ''])
+        d.on_study.abs_ns(ns)[r.choice(['k', 'k2'])] = md_value()
       else:
-        d.on_trials[r.randrange(1, 4)].abs_ns(ns)[r.choice(['k', 'k2'])] = r.choice(['v', ''])
+        d.on_trials[r.randrange(1, 4)].abs_ns(ns)[r.choice(['k', 'k2'])] = md_value()
     back = D.from_protos(D.to_protos(d))
     rep.case({'metadata_delta': repr(d)[:200]}, bool(d.on_trials))
-    canon = lambda x: (sorted((str(ns), k, v) for ns in x.on_study.namespaces() for k, v in x.on_study.abs_ns(ns).items()),
-                       sorted((tid, str(ns), k, v) for tid, md in x.on_trials.items() for ns in md.namespaces() for k, v in md.abs_ns(ns).items()))
+    sv = lambda v: v if isinstance(v, str) else ('proto', v.type_url, bytes(v.value))
+    canon = lambda x: (sorted((str(ns), k, sv(v)) for ns in x.on_study.namespaces() for k, v in x.on_study.abs_ns(ns).items()),
+                       sorted((tid, str(ns), k, sv(v)) for tid, md in x.on_trials.items() for ns in md.namespaces() for k, v in md.abs_ns(ns).items()))
     if canon(back) != canon(d):
       viol('MetadataDelta differs after to_protos/from_protos', {'delta': repr(d), 'back': repr(back)})
   # study configs / problem statements / requests
@@ -288,7 +298,7 @@ def run(tier, seed):
     sc.algorithm = r.choice(['RANDOM_SEARCH', 'NSGA2', ''])
     sc.observation_noise = r.choice(list(svz.ObservationNoise))
     if r.random() < 0.5:
-      sc.metadata.ns('u')['k'] = r.choice(['v', ''])
+      sc.metadata.ns('u')['k'] = md_value()
     p1 = sc.to_proto()
     back = svz.StudyConfig.from_proto(p1)
     p2 = back.to_proto()
@@ -298,6 +308,10 @@ def run(tier, seed):
       viol('second conversion of a StudyConfig is not identical', {'metrics': mnames}, None if srt else 'C09-study-config-sorts-metrics')
     if back.search_space != sc.search_space or back.algorithm != sc.algorithm or back.observation_noise != sc.observation_noise:
       viol('StudyConfig differs after to_proto/from_proto', {'metrics': mnames})
+    mdc = lambda c: sorted((str(ns), k, v if isinstance(v, str) else ('proto', v.type_url, bytes(v.value)))
+                           for ns in c.metadata.namespaces() for k, v in c.metadata.abs_ns(ns).items())
+    if mdc(back) != mdc(sc):
+      viol('StudyConfig metadata differs after to_proto/from_proto', {'metadata': repr(mdc(sc))[:300], 'back': repr(mdc(back))[:300]})
     if [m.name for m in back.metric_information] != mnames:
       viol('StudyConfig metrics differ after to_proto/from_proto', {'metrics': mnames}, None if srt else 'C09-study-config-sorts-metrics')
     # Pythia requests / decisions
